@@ -16,8 +16,9 @@ func c12Ladders(tier string) []gen.Ladder {
 	mixed := append(gen.SigmaMid(), gen.SigmaFuncFilters()...)
 	if tier == "thorough" {
 		return []gen.Ladder{
-			{Alpha: gen.SigmaFull(), Depth: 3, Funcs: gen.FuncSuffixes(), FuncDepth: 2},
-			{Alpha: mixed, Depth: 3, Funcs: gen.FuncSuffixes(), FuncDepth: 3, Keep: hasFuncFilter},
+			{Alpha: gen.SigmaFull(), Depth: 2, Funcs: gen.FuncSuffixes(), FuncDepth: 2},
+			{Alpha: gen.SigmaFull(), Depth: 3, MinPrefix: 2, Modes: []int{modeFloat}, SmallDocs: true},
+			{Alpha: mixed, Depth: 3, Funcs: gen.FuncSuffixes(), FuncDepth: 3, Keep: hasFuncFilter, Modes: []int{modeFloat}, SmallDocs: true},
 		}
 	}
 	return []gen.Ladder{
@@ -162,7 +163,7 @@ func init() {
 		},
 		Bounds: map[string]string{
 			"quick":    "all paths of <=2 steps over the 50-step alphabet with each of 7 trailing functions (both decodings); all paths of <=3 steps over (16-step alphabet + 13 filters with functions inside operands) that contain such a filter, each also with trailing functions; every document of <=4 nodes",
-			"thorough": "paths of <=3 steps over the 50-step alphabet (+functions after <=2), function-filter ladder to depth 3 with functions after <=3 steps; every document of <=5 nodes, both decodings",
+			"thorough": "paths of <=2 steps (+functions) on every document of <=5 nodes in both decodings; 3 steps over the full alphabet and the function-filter ladder (functions after <=3 steps) on documents of <=4 nodes",
 		},
 		New: func(tier string) run.Job {
 			return &productJob{
